@@ -142,6 +142,11 @@ func TestWorker(t *testing.T) {
 		st := time.Now()
 		unguard := guard(sc, -1)
 		res := p.Execute(sc, true)
+		// scenarios whose outcome depends on something they do not decide (props.json
+		// exec_repeat): up to k executions in this process, the first violation counts
+		for i := 1; i < envInt("VERIF_EXEC_REPEAT", 1) && res.V == nil && res.Infra == nil; i++ {
+			res = p.Execute(sc, true)
+		}
 		unguard()
 		rec := &core.RunRecord{Idx: -1, Seed: sc.Seed, Stats: res.Stats, Violation: res.V, Sample: res.Log, WallMs: time.Since(st).Milliseconds()}
 		if res.Infra != nil {
@@ -167,6 +172,15 @@ func TestWorker(t *testing.T) {
 	start := time.Now()
 	seenSig := map[string]bool{}
 	known := core.LoadKnown(os.Getenv("VERIF_KNOWN"))
+	repeat := envInt("VERIF_EXEC_REPEAT", 1)
+	// again: re-execution of a scenario that has shown a violation (shrinking, confirmation)
+	again := func(c *core.Scenario, keep bool) *core.Result {
+		r := p.Execute(c, keep)
+		for i := 1; i < repeat && r.V == nil && r.Infra == nil; i++ {
+			r = p.Execute(c, keep)
+		}
+		return r
+	}
 	viol := 0
 	for k := 0; k < count; k++ {
 		if time.Since(start) > budget {
@@ -203,17 +217,23 @@ func TestWorker(t *testing.T) {
 				small, sres, runs := core.Shrink(sc, res.V.Sig, shrinkBudget, func(c *core.Scenario) *core.Result {
 					un := guard(c, -2) // a hang while shrinking is reported for the candidate
 					defer un()
-					return p.Execute(c, false)
+					r := again(c, false)
+					if r.V != nil && core.MatchKnown(known, c, r.V) != nil {
+						// a smaller scenario that shows a recorded finding instead is not a
+						// smaller form of this violation
+						r.V = nil
+					}
+					return r
 				})
 				rec.Shrunk = fmt.Sprintf("%d->%d actions in %d runs", len(sc.Actions), len(small.Actions), runs)
 				un := guard(small, -2)
-				final := p.Execute(small, true)
+				final := again(small, true)
 				un()
 				v := final.V
 				if v == nil || v.Sig != res.V.Sig {
 					// shrinking result does not reproduce: keep the original
 					small = sc
-					final = p.Execute(sc, true)
+					final = again(sc, true)
 					v = final.V
 					_ = sres
 				}
@@ -224,8 +244,14 @@ func TestWorker(t *testing.T) {
 					}
 					rec.Violation = v
 				} else {
-					rec.Infra = "violation did not reproduce in-process: " + res.V.Error()
-					rec.Violation = nil
+					// observed once, not again: keep what was observed with the unshrunk
+					// scenario; the driver decides what to make of it
+					rec.Unstable = true
+					rec.Violation = res.V
+					path := filepath.Join(replayDir, fmt.Sprintf("%s-%d.json", propID, rseed))
+					if err := core.WriteReplay(path, sc, res.V, res.Log); err == nil {
+						rec.Replay = path
+					}
 				}
 			}
 			viol++
